@@ -31,7 +31,15 @@ pub enum Op {
     Reset { g: u8, via_default: bool },
     /// `live[dst].clone_from(&live[src])` (in-place clone: the destination's old state must vanish completely)
     CloneFrom { dst: u8, src: u8 },
+    /// generator g is *moved to a freshly spawned thread*, fed pool[off .. off+len] and finalized (option setting o)
+    /// and cloned there, then moved back: a generator is plain data, who touches it on which thread must not matter
+    ThreadHop { g: u8, off: u32, len: u32, o: u8 },
 }
+
+/// Moves a generator to another thread without requiring `Send` from the type (a tree whose generator stops being
+/// `Send` still holds the property; the simulator must keep compiling there).  Nothing is shared: the value is moved.
+struct Carry<T>(T);
+unsafe impl<T> Send for Carry<T> {}
 
 #[derive(Clone, Debug, Hash, PartialEq, Eq)]
 pub struct Hist {
@@ -72,6 +80,7 @@ fn kind_code(op: &Op) -> u64 {
         Op::UpdateChunks { .. } => 7,
         Op::Reset { .. } => 8,
         Op::CloneFrom { .. } => 9,
+        Op::ThreadHop { .. } => 10,
     }
 }
 
@@ -237,6 +246,44 @@ fn run<K: Kind>(h: &Hist, pool: &[u8], st: &mut Stats, fnv: &mut Fnv, states: &m
                     }
                 }
             }
+            Op::ThreadHop { g, off, len, o } => {
+                let i = gi(*g);
+                let off = (*off as usize).min(pool.len());
+                let end = (off + *len as usize).min(pool.len());
+                let piece = &pool[off..end];
+                let opt_id = *o;
+                let moved = Carry(std::mem::replace(&mut live[i].g, K::new_gen()));
+                st.hit("fault.generator_moved_to_fresh_thread");
+                let back = std::thread::scope(|sc| {
+                    sc.spawn(move || {
+                        let mut m = moved;
+                        m.0.update(piece);
+                        let a = render(&m.0.finalize_with_options(&options(opt_id)));
+                        let c = Carry(m.0.clone());
+                        (m, a, c)
+                    })
+                    .join()
+                });
+                let (m, a, c) = match back {
+                    Ok(x) => x,
+                    Err(_) => return mk("panic:on-another-thread", format!("step {step}: update/finalize/clone of a generator moved to a fresh thread panicked")),
+                };
+                live[i].g = m.0;
+                live[i].seen.extend_from_slice(piece);
+                let mut fresh = K::new_gen();
+                fresh.update(&live[i].seen);
+                let b = render(&fresh.finalize_with_options(&options(opt_id)));
+                if a != b {
+                    return mk("chunked-differs-from-one-shot", format!("step {step}: {} bytes seen, options#{opt_id}: finalize on the thread the generator was moved to gives {a}, one update gives {b}", live[i].seen.len()));
+                }
+                if let Some(v) = check_all(&live[i], &[opt_id, 30], fnv) {
+                    return Some(Violation { detail: format!("step {step} (generator moved back from another thread): {}", v.detail), ..v });
+                }
+                if live.len() < MAX_LIVE {
+                    let seen = live[i].seen.clone();
+                    live.push(Live { g: c.0, seen });
+                }
+            }
         }
         prev_kind = kind_code(op);
     }
@@ -331,7 +378,14 @@ impl Scenario for C03 {
                 cursor = (cursor + total).min(len as u32);
                 Op::UpdateChunks { g, off, total, chunk }
             } else if x < 74 {
-                Op::Reset { g, via_default: r.chance(1, 2) }
+                if r.chance(1, 2) {
+                    let l = draw_piece_len(r, len).min(70_000);
+                    let off = if sequential { cursor } else { r.below(len as u64 + 1) as u32 };
+                    cursor = (cursor + l).min(len as u32);
+                    Op::ThreadHop { g, off, len: l, o: if r.chance(1, 2) { 30 } else { r.below(32) as u8 } }
+                } else {
+                    Op::Reset { g, via_default: r.chance(1, 2) }
+                }
             } else if x < 76 {
                 Op::CloneFrom { dst: g, src: r.below(MAX_LIVE as u64) as u8 }
             } else if x < 78 {
@@ -446,6 +500,7 @@ impl Scenario for C03 {
                 Op::UpdateChunks { g, off, total, chunk } => format!("UpdateChunks({g},{off},{total},{chunk})"),
                 Op::Reset { g, via_default } => format!("Reset({g},{})", *via_default as u8),
                 Op::CloneFrom { dst, src } => format!("CloneFrom({dst},{src})"),
+                Op::ThreadHop { g, off, len, o } => format!("ThreadHop({g},{off},{len},{o})"),
             })
             .collect();
         json!({"variant": VARIANT_NAMES[h.variant as usize], "variant_id": h.variant, "pool": h.pool.to_json(), "ops": ops,
@@ -499,6 +554,10 @@ impl Scenario for C03 {
                 "CloneFrom" => {
                     need(2)?;
                     Op::CloneFrom { dst: args[0] as u8, src: args[1] as u8 }
+                }
+                "ThreadHop" => {
+                    need(4)?;
+                    Op::ThreadHop { g: args[0] as u8, off: args[1], len: args[2], o: args[3] as u8 }
                 }
                 _ => return Err(format!("unknown op {s}")),
             });
